@@ -146,7 +146,7 @@ def startCalls (G : AGrammar) (tr : List Act) : Nat :=
   | some (_, calls) => (calls.filter (fun c => c.nt == G.userStart)).length
   | none => 0
 
-/-- **Finding FC23a**: with a recursive start symbol the start action is called once per
+/-- **Finding F28**: with a recursive start symbol the start action is called once per
     application of the start symbol — twice on `a a` for `S: "a" [ S ];` (the real adapter does the
     same, see `checks/c23.py`). The unrestricted statement is false. -/
 theorem start_action_once_counterexample : ¬ StartActionOnceAll := by
